@@ -265,6 +265,8 @@ pub fn run_seq_with_state(seq: &Seq, dir: &Path, driver: &mut Option<Driver>, op
     let mut dead = false;
     let mut prev_dec: BTreeMap<usize, crate::decoder::Decoded> = BTreeMap::new();
     let mut pending_sync: std::collections::BTreeSet<usize> = Default::default();
+    // the dirty flag each map must report (None = not tracked across this point)
+    let mut dirty_flag: BTreeMap<usize, Option<bool>> = Default::default();
     let mut ever_opened: std::collections::BTreeSet<usize> = Default::default();
     let mut last_hash: Option<Vec<(String, u64, u64)>> = None;
     let mut updated_since_cmp = true;
@@ -383,7 +385,7 @@ pub fn run_seq_with_state(seq: &Seq, dir: &Path, driver: &mut Option<Driver>, op
                 }
                 want = Some(if !(opts.model && driver.is_some()) { "-".into() } else if ok { "ok".into() } else { "FAIL".into() });
             }
-            Op::Cmp(_) | Op::Rehandle(_) => {}
+            Op::Cmp(_) | Op::Rehandle(_) | Op::IsDirty => {}
             Op::GetString(_) | Op::PutString(..) | Op::DelString(_) | Op::BulkGetString(_) | Op::BulkDelString(_) => unreachable!(),
         }
         if !sview_exact {
@@ -428,6 +430,7 @@ pub fn run_seq_with_state(seq: &Seq, dir: &Path, driver: &mut Option<Driver>, op
                 }
                 Op::Inc(k) => oracle_want = Some(o.contains_key(&k.bytes()).to_string()),
                 Op::Len => oracle_want = Some(o.len().to_string()),
+                Op::IsDirty => oracle_want = dirty_flag.get(&cur).cloned().flatten().map(|b| b.to_string()),
                 Op::Empty => oracle_want = Some(o.is_empty().to_string()),
                 Op::BulkGet(ks) => {
                     oracle_want = Some(ks.iter().map(|k| repr_opt(&lossy(o.get(&k.bytes()).cloned()))).collect::<Vec<_>>().join("|"))
@@ -506,6 +509,33 @@ pub fn run_seq_with_state(seq: &Seq, dir: &Path, driver: &mut Option<Driver>, op
         };
         if changed {
             pending_sync.insert(cur);
+            dirty_flag.insert(cur, Some(true));
+        }
+        match &op {
+            // a freshly opened map reports dirty (its header may have been created)
+            Op::Map(id, ..) if !dirty_flag.contains_key(id) && got == "ok" => {
+                dirty_flag.insert(*id, Some(true));
+            }
+            Op::Reopen(_) if got == "ok" => {
+                for v in dirty_flag.values_mut() {
+                    *v = Some(true);
+                }
+            }
+            Op::Flush | Op::SyncAll | Op::SyncData if got == "ok" => {
+                dirty_flag.insert(cur, Some(false));
+            }
+            Op::DbSyncAll | Op::DbSyncData if got == "ok" => {
+                for v in dirty_flag.values_mut() {
+                    *v = Some(false);
+                }
+            }
+            _ => {}
+        }
+        if !got.starts_with("some") && !got.starts_with("none") && !["ok", "true", "false"].contains(&got.as_str()) && !got.starts_with("n=") && !got.chars().next().map(|c| c.is_ascii_digit()).unwrap_or(false) && !got.starts_with("fk=") {
+            // an error / panic / dead child: nothing is known about the flags afterwards
+            for v in dirty_flag.values_mut() {
+                *v = None;
+            }
         }
         if op.is_update() {
             updated_since_cmp = true;
@@ -567,8 +597,13 @@ pub fn run_seq_with_state(seq: &Seq, dir: &Path, driver: &mut Option<Driver>, op
             }
             if snap != dir {
                 let _ = std::fs::remove_dir_all(&snap);
-            } else if imp.reopen_all().is_err() {
-                dead = true;
+            } else {
+                if imp.reopen_all().is_err() {
+                    dead = true;
+                }
+                for v in dirty_flag.values_mut() {
+                    *v = Some(true);
+                }
             }
             for m in &scope {
                 pending_sync.remove(&m.0);
@@ -590,6 +625,10 @@ pub fn run_seq_with_state(seq: &Seq, dir: &Path, driver: &mut Option<Driver>, op
         };
         if let (Some(mode), false) = (do_cmp, dead) {
             if opts.model && driver.is_some() {
+                // the comparison point syncs (mode 0: every map clean) or reopens (mode 1: every map fresh)
+                for v in dirty_flag.values_mut() {
+                    *v = Some(mode != 0);
+                }
                 let wid = watch_begin(opts.op_budget_ms, format!("op={} cmp-prepare", idx));
                 let prep: Result<(), ()> = if mode == 0 {
                     let r = imp.exec(&Op::DbSyncData);
